@@ -46,17 +46,46 @@ func firstOf(kind string) bool {
 
 var instanceNames = []string{"", "a", "b/c"}
 
-func genUniverse(r *gen.Rng, c *run.Case, n int) []*object {
+// genUniverse generates n objects with unique contents. With alias set, an
+// object may instead carry the SAME content as its predecessor under a
+// different instance name: under KeyWithInstance those are two objects, under
+// KeyWithoutInstance one (a decorator that keys its state with the wrong
+// format confuses them). Engines whose oracle reads the placement from
+// per-object flags do not use aliases.
+func genUniverse(r *gen.Rng, c *run.Case, n int, alias bool) []*object {
 	inst := instanceNames[r.Intn(len(instanceNames))]
 	var out []*object
 	for i := 0; i < n; i++ {
 		data := gen.UniqueBlob(uint64(c.Index)<<8|uint64(c.W.Index), uint64(i), r.Range(2, 48))
-		o := &object{idx: i, data: data, d: gen.SHA256Digest(inst, data)}
+		in := inst
+		if alias && i > 0 && r.Chance(1, 4) {
+			data = out[i-1].data
+			for in == out[i-1].d.GetInstanceName().String() {
+				in = instanceNames[r.Intn(len(instanceNames))]
+			}
+		}
+		o := &object{idx: i, data: data, d: gen.SHA256Digest(in, data)}
 		o.childData = data[:len(data)/2]
-		o.child = gen.SHA256Digest(inst, o.childData)
+		o.child = gen.SHA256Digest(in, o.childData)
 		out = append(out, o)
 	}
 	return out
+}
+
+// sharedObject reports whether two callers ask for a common object.
+func sharedObject(callers []*callerRec) bool {
+	seen := map[int]bool{}
+	for _, cr := range callers {
+		for _, o := range cr.objs {
+			if seen[o] {
+				return true
+			}
+		}
+		for _, o := range cr.objs {
+			seen[o] = true
+		}
+	}
+	return false
 }
 
 func setOf(objs []*object, idx []int) digest.Set {
@@ -221,7 +250,7 @@ func replScenario(c *run.Case, w *run.Worker, r *gen.Rng) {
 	g.apply(e)
 	source := newGStore(e, "source", g.kf, g.streamSource)
 	sink := newGStore(e, "sink", g.kf, g.streamSink)
-	objs := genUniverse(r, c, r.Range(1, 5))
+	objs := genUniverse(r, c, r.Range(1, 5), true)
 	for _, o := range objs {
 		o.inSource = r.Chance(17, 20)
 		o.inSink = r.Chance(1, 6)
@@ -293,7 +322,10 @@ func replScenario(c *run.Case, w *run.Worker, r *gen.Rng) {
 	w.Count("sched_steps", int64(sc.steps))
 	w.Count("clock_advances", int64(sc.advances))
 	w.Count("sink_evictions", int64(sc.evictions))
-	w.Distinct(fmt.Sprintf("repl|%v|%s|%s|%s", st, placementString(objs), strings.Join(ops, " "), sc.scheduleHash()))
+	if sharedObject(sc.callers) {
+		w.Count("nontrivial_conc", 1)
+		w.Distinct(fmt.Sprintf("repl|%v|%s|%s|%s", st, placementString(objs), strings.Join(ops, " "), sc.scheduleHash()))
+	}
 	if firstOf("repl") {
 		w.Sample(map[string]any{"kind": "replicator stack", "stack": st.String(), "config": g.String(), "placement": placementString(objs), "callers": ops, "schedule": sc.schedule})
 	}
@@ -462,7 +494,7 @@ func compositeScenario(c *run.Case, w *run.Worker, r *gen.Rng) {
 	g.apply(e)
 	source := newGStore(e, "source", g.kf, g.streamSource)
 	sink := newGStore(e, "sink", g.kf, g.streamSink)
-	objs := genUniverse(r, c, r.Range(1, 5))
+	objs := genUniverse(r, c, r.Range(1, 5), false)
 	for _, o := range objs {
 		o.inSource = r.Chance(15, 20)
 		o.inSink = r.Chance(1, 5)
@@ -559,7 +591,10 @@ func compositeScenario(c *run.Case, w *run.Worker, r *gen.Rng) {
 	w.Count("sched_steps", int64(sc.steps))
 	w.Count("clock_advances", int64(sc.advances))
 	w.Count("sink_evictions", int64(sc.evictions))
-	w.Distinct(fmt.Sprintf("%s|%v|%s|%s|%s", kind, st, placementString(objs), strings.Join(ops, " "), sc.scheduleHash()))
+	if sharedObject(sc.callers) {
+		w.Count("nontrivial_conc", 1)
+		w.Distinct(fmt.Sprintf("%s|%v|%s|%s|%s", kind, st, placementString(objs), strings.Join(ops, " "), sc.scheduleHash()))
+	}
 	if firstOf("composite") {
 		w.Sample(map[string]any{"kind": kind, "stack": st.String(), "config": g.String(), "placement": placementString(objs), "callers": ops, "schedule": sc.schedule})
 	}
@@ -666,7 +701,7 @@ func ecScenario(c *run.Case, w *run.Worker, r *gen.Rng) {
 	e.seed = r.Uint64()
 	g.apply(e)
 	backend := newGStore(e, "backend", g.kf, false)
-	objs := genUniverse(r, c, r.Range(2, 6))
+	objs := genUniverse(r, c, r.Range(2, 6), true)
 	for _, o := range objs {
 		if r.Chance(2, 3) {
 			o.inSource = true
@@ -731,7 +766,10 @@ func ecScenario(c *run.Case, w *run.Worker, r *gen.Rng) {
 	}
 	w.Count("sched_steps", int64(sc.steps))
 	w.Count("clock_advances", int64(sc.advances))
-	w.Distinct(fmt.Sprintf("ec|%s|%d|%v|%s|%s|%s", setName, size, dur, placementString(objs), strings.Join(ops, " "), sc.scheduleHash()))
+	if sharedObject(sc.callers) {
+		w.Count("nontrivial_conc", 1)
+		w.Distinct(fmt.Sprintf("ec|%s|%d|%v|%s|%s|%s", setName, size, dur, placementString(objs), strings.Join(ops, " "), sc.scheduleHash()))
+	}
 	if firstOf("ec") {
 		w.Sample(map[string]any{"kind": "existence caching (concurrent)", "set": setName, "size": size, "duration": dur.String(), "config": g.String(), "callers": ops, "schedule": sc.schedule})
 	}
